@@ -210,7 +210,10 @@ class ComponentState(object):
                         except TypeError as error:
                             pass
 
-                    return componentState
+                    # VV: Emit a snapshot. The delta-filter downstream runs on a different thread, if it received this
+                    # (shared, mutable) dictionary it could observe the updates of later emissions too and, for example,
+                    # miss a running->checking transition that follows a checking->running one within microseconds
+                    return dict(componentState)
 
                 return UpdateStateBasedOnEngine
 
